@@ -91,7 +91,7 @@ func verif14Stage(msg *p2p.Message, trailer []byte) []byte {
 type verif14NoEvents struct{}
 
 func (verif14NoEvents) Produce(*networkevent.Event) {}
-func (verif14NoEvents) Close() error               { return nil }
+func (verif14NoEvents) Close() error                { return nil }
 
 type verif14ConnEvents struct{}
 
